@@ -185,10 +185,14 @@ func evaluateSearchCriteria(messages []messageInfo, criteria string, charset str
 	return matching
 }
 
-// parseSearchTokens tokenizes search criteria
+// parseSearchTokens tokenizes search criteria. A token is a run of consecutive
+// bytes of criteria and is returned as a substring of it: a parenthesised
+// list is one token that is tokenised again when it is evaluated, level by
+// level, and must not copy its text at every level (a line of n nested
+// parentheses used to allocate n*n/2 bytes per message).
 func parseSearchTokens(criteria string) []string {
 	var tokens []string
-	var current strings.Builder
+	start := -1 // start of the current token, -1 between tokens
 	inQuotes := false
 	inParens := 0
 
@@ -198,31 +202,31 @@ func parseSearchTokens(criteria string) []string {
 		switch ch {
 		case '"':
 			inQuotes = !inQuotes
-			current.WriteByte(ch)
 		case '(':
 			if !inQuotes {
 				inParens++
 			}
-			current.WriteByte(ch)
 		case ')':
 			if !inQuotes {
 				inParens--
 			}
-			current.WriteByte(ch)
 		case ' ', '\t':
-			if inQuotes || inParens > 0 {
-				current.WriteByte(ch)
-			} else if current.Len() > 0 {
-				tokens = append(tokens, current.String())
-				current.Reset()
+			if !inQuotes && inParens <= 0 {
+				// a separator: it ends the current token, if any
+				if start != -1 {
+					tokens = append(tokens, criteria[start:i])
+					start = -1
+				}
+				continue
 			}
-		default:
-			current.WriteByte(ch)
+		}
+		if start == -1 {
+			start = i
 		}
 	}
 
-	if current.Len() > 0 {
-		tokens = append(tokens, current.String())
+	if start != -1 {
+		tokens = append(tokens, criteria[start:])
 	}
 
 	return tokens
@@ -253,18 +257,18 @@ func evaluateTokens(msg messageInfo, tokens []string, charset string, userID int
 func evaluateKeys(msg messageInfo, tokens []string, keyLen []int, charset string, userID int64, deps ServerDeps) bool {
 	i := 0
 	for i < len(tokens) {
-		token := strings.ToUpper(tokens[i])
-
 		// Parenthesised list of search keys (one token, see parseSearchTokens):
-		// every key of the list must match
-		if len(token) >= 2 && token[0] == '(' && token[len(token)-1] == ')' {
-			inner := tokens[i][1 : len(tokens[i])-1]
+		// every key of the list must match. Recognised before the token is
+		// upper-cased: the list may be as long as the whole command line.
+		if raw := tokens[i]; len(raw) >= 2 && raw[0] == '(' && raw[len(raw)-1] == ')' {
+			inner := raw[1 : len(raw)-1]
 			if !evaluateTokens(msg, parseSearchTokens(inner), charset, userID, deps) {
 				return false
 			}
 			i++
 			continue
 		}
+		token := strings.ToUpper(tokens[i])
 
 		// Handle sequence set (numbers and ranges)
 		if isSequenceSet(token) {
@@ -518,6 +522,11 @@ func evaluateKeys(msg messageInfo, tokens []string, keyLen []int, charset string
 func searchKeyLengths(tokens []string) []int {
 	keyLen := make([]int, len(tokens))
 	for i := len(tokens) - 1; i >= 0; i-- {
+		if strings.HasPrefix(tokens[i], "(") {
+			// a parenthesised list, possibly very long: one token, no keyword
+			keyLen[i] = 1
+			continue
+		}
 		token := strings.ToUpper(tokens[i])
 		switch {
 		case token == "NOT":
